@@ -3,6 +3,7 @@ package main
 
 import (
 	"context"
+	"errors"
 	"fmt"
 	"io"
 	"sort"
@@ -21,6 +22,7 @@ type result struct {
 	err     error
 	done    bool
 	ordered bool // order must equal input order
+	errOK   bool // the construct is expected to report a (recorded, non-fatal) error at Close
 }
 
 type construct struct {
@@ -177,6 +179,48 @@ func constructs() []construct {
 			r.err = it.Close()
 			r.ordered = w == 1
 		}},
+		// an input that delivers everything but carries a recorded, non-fatal error (as the
+		// output of a continue-on-error stage does) is not an abort: its siblings are still merged
+		{"MergeIterators/input-with-recorded-error", func(ctx context.Context, in []int, w int, r *result) {
+			parts := make([][]int, w+1)
+			for i, v := range in {
+				parts[1+i%w] = append(parts[1+i%w], v) // parts[0] stays empty: that input finishes first
+			}
+			its := make([]*fun.Iterator[int], w+1)
+			for i := range its {
+				its[i] = fun.SliceIterator(parts[i])
+			}
+			its[0].AddError(errors.New("recorded-earlier"))
+			it := fun.MergeIterators(its...)
+			_ = drain(ctx, it, &r.out)
+			r.err = it.Close()
+			r.ordered, r.errOK = false, true
+		}},
+		// fan-out followed by fan-in
+		{"Split+MergeIterators", func(ctx context.Context, in []int, w int, r *result) {
+			it := fun.MergeIterators(fun.SliceIterator(in).Split(w)...)
+			_ = drain(ctx, it, &r.out)
+			r.err = it.Close()
+			r.ordered = w == 1
+		}},
+		// two fan-out stages reading one channel-backed iterator at the same time
+		{"TwoSplitsOfOneChannelIterator", func(ctx context.Context, in []int, w int, r *result) {
+			ch := make(chan int, len(in))
+			for _, v := range in {
+				ch <- v
+			}
+			close(ch)
+			src := fun.ChannelIterator(ch)
+			stages := []*fun.Iterator[int]{src.Split(1)[0], src.Split(1)[0]}
+			fin := make(chan struct{}, 2)
+			for _, st := range stages {
+				st := st
+				go func() { _ = drain(ctx, st, &r.out); fin <- struct{}{} }()
+			}
+			<-fin
+			<-fin
+			r.ordered = false
+		}},
 		{"GenerateParallel", func(ctx context.Context, in []int, w int, r *result) {
 			var next atomic.Int64
 			n := int64(len(in))
@@ -259,7 +303,7 @@ func scenario(c construct, n, w int) vs.Scenario {
 				}
 				return tag, fmt.Sprintf("%s n=%d w=%d: input %v, output %v (err=%v)", c.name, n, w, in, r.out, r.err)
 			}
-			if r.err != nil {
+			if r.err != nil && !r.errOK {
 				return "unexpected-error", fmt.Sprintf("%s n=%d w=%d: %v", c.name, n, w, r.err)
 			}
 			return "", ""
